@@ -529,6 +529,9 @@ def api_reader(fs, oids, init_recs, n, out):
                     out.append(('rev', 'record_iternext', oid, tid, data))
                     if nxt is None:
                         break
+            except POSKeyError:
+                # which object?  (the walk stands at `nxt`, or at the first oid)
+                out.append(('exc', 'record_iternext', 'POSKeyError', nxt))
             except Exception as e:              # noqa: B902
                 out.append(('exc', 'record_iternext', type(e).__name__))
             try:
@@ -622,6 +625,18 @@ def verify_extras(obs, fs, T, init_recs, api_out, kdone, final_dump):
             # loadSerial of a revision at or before the pack time may be gone; everything else must work
             # (record_iternext raises POSKeyError at an object whose newest record is a deletion — with or
             #  without a pack; the storage-level committer deletes objects)
+            if o[1] == 'record_iternext' and o[2] == 'POSKeyError' and len(o) > 3 and o[3] is not None:
+                # record_iternext reads the index and then loads without any lock: when the swap of a gc pack
+                # falls in between, it raises for an object the pack has just collected (unreachable garbage,
+                # outside C07's observables).  Counted, reported to the coordinator, not judged here.
+                try:
+                    fs.load(o[3], '')
+                    gone = False
+                except POSKeyError:
+                    gone = True
+                if gone:
+                    obs['iternext_collected'] = obs.get('iternext_collected', 0) + 1
+                    continue
             if not (o[1] == 'loadSerial' and o[2] == 'POSKeyError') and not (
                     o[1] == 'record_iternext' and o[2] == 'POSKeyError' and any(k[1] == 'delete' for k in kdone)):
                 pr.append(('api-error:%s:%s' % (o[1], o[2]), 'storage call %s raised %s during the pack' % (o[1], o[2])))
@@ -1189,8 +1204,9 @@ def classify_events(R):
     return first, second
 
 
-def open_image(img_dir):
-    """open the materialised image with the real FileStorage → (dump, problem-or-None)"""
+def open_image(img_dir, second_pack=False):
+    """open the materialised image with the real FileStorage → (dump, problem-or-None); optionally run a
+    SECOND pack on the reopened storage and check it against its own state before"""
     path = os.path.join(img_dir, 'Data.fs')
     clean_side_files(path)
     try:
@@ -1212,6 +1228,19 @@ def open_image(img_dir):
         except Exception as e:      # noqa: B902
             transaction.abort()
             return d, 'commit after reopen raised %s: %s' % (type(e).__name__, e)
+        if second_pack:
+            try:
+                before = dict((oid, fs.load(oid, '')) for oid in sorted(reachable_at(fs, b'\xff' * 8)))
+                db.pack(time.time())
+                d2 = txn_dump(fs)
+                e = index_vs_log(fs, d2)
+                if e:
+                    return d, 'after a second pack of the reopened storage index and log disagree: ' + e
+                after = dict((oid, fs.load(oid, '')) for oid in before)
+                if after != before:
+                    return d, 'a second pack of the reopened storage changed reachable current records'
+            except Exception as e:  # noqa: B902
+                return d, 'a second pack of the reopened storage raised %s: %s' % (type(e).__name__, e)
         return d, None
     finally:
         try:
@@ -1385,7 +1414,7 @@ def run_crash_scenario(ck, P, tier_thorough, only_cut=None):
     during = any(e[0] == 'mark' for e in evs[first_pack_write:first])
     for (k, nb) in cuts:
         vfs.materialize(R['init'], evs, k, nb, img)
-        D, problem = open_image(img)
+        D, problem = open_image(img, second_pack=(nb is None and (tier_thorough or k % 2 == 0)))
         verdict = crash_oracle(R, U, Pk, k, D, problem)
         nontriv = k > first_pack_write and during
         ck.case(dict(kind='crash', P=P, cut=[k, nb]), nontriv,
@@ -2333,13 +2362,15 @@ def gen_crash_params(rng, i):
                 commits=[2, 0, 3, 1, 2][i % 5], keep_old=bool(i % 2 == 0), prepack=int(i % 3 == 1),
                 reopen=int(i % 4 == 2), ptime=['mid', 'mid', 'now', 'mid', 'future'][i % 5],
                 pre=rng.choice([1, 2, 3]), post=rng.choice([1, 2, 3]), gsize=rng.choice([1, 3, 400]),
-                pad=rng.choice([0, 0, 3000]), nolink=int(i % 8 == 7))
+                pad=rng.choice([0, 0, 3000, 70000]), nolink=int(i % 8 == 7), pack_gc=bool(i % 3 != 2),
+                ctor=['direct', 'config'][i % 2], hex=int(i % 4 == 2))
 
 
 def gen_fault_params(rng, i):
     return dict(keep_old=bool(i % 2 == 0), prepack=int(i % 2 == 0 or i % 3 == 0), reopen=int(i % 3 == 1),
                 ptime=['mid', 'now'][i % 2], pre=rng.choice([1, 2]), post=rng.choice([1, 2, 3]),
-                gsize=rng.choice([1, 3]), nolink=int(i % 4 == 3))
+                gsize=rng.choice([1, 3]), nolink=int(i % 4 == 3), pack_gc=bool(i % 3 != 1),
+                ctor=['direct', 'config'][i % 2], hex=int(i % 4 == 1))
 
 
 # ------------------------------------------------------------------------------------------------
@@ -2354,7 +2385,8 @@ def sched_job(args):
         raise
     small = dict(P=P, deadlock=obs['deadlock'], problems=obs['problems'], results=obs['results'],
                  steps=obs['steps'], nontrivial=sched_nontrivial(obs), ndec=len(obs['decisions']),
-                 returned=len(obs['returned']), T=obs['T'])
+                 returned=len(obs['returned']), T=obs['T'], api_calls=obs.get('api_calls', 0),
+                 iternext_collected=obs.get('iternext_collected', 0))
     # [I] PackProto acceptance, computed where the full event log is available
     small['proto'] = None
     try:
@@ -2523,6 +2555,13 @@ def judge_sched(ck, small, proto_batch):
             if small['nontrivial'] else None)
     ck.count('sched-steps', small['steps'])
     ck.count('sched-returned-commits', small['returned'])
+    if small.get('api_calls'):
+        ck.count('sched-api-reader-observations', small['api_calls'])
+    if small.get('iternext_collected'):
+        ck.count('record_iternext-POSKeyError-on-object-collected-by-the-swap', small['iternext_collected'])
+    for key in ('ctor', 'hex', 'pack_gc', 'hooks', 'kcommit', 'hist'):
+        if P.get(key) not in (None, 0, 'direct', True):
+            ck.count('sched-dim:%s=%s' % (key, P.get(key)))
     for k, v in (small['results'] or {}).items():
         if k in ('p', 'q'):
             for x in (v if isinstance(v, list) else [v]):
